@@ -401,6 +401,7 @@ func v14hPartitionScan(n, kmax, sched int) {
 		// repeats the experiment (under the Go scheduler a schedule-dependent
 		// counterexample shows up by repetition)
 		verif.Schedules(sched)
+		verif.Races(true)
 		pat = verif.Choose("data", len(v14hSchedKeys))
 		rounds = verif.NativeRounds(200)
 	} else {
